@@ -142,7 +142,13 @@ func (g *graph) reopen(ctx context.Context) error {
 	g.roots.Range(func(_ PipelineID, pipeline *registeredPipeline) bool {
 		err := g.doReopen(ctx, pipeline.rootNode)
 		if err != nil {
-			errors = multierror.Append(errors, err)
+			// The error is added as it is: multierror.Append would flatten an
+			// error which is itself a *multierror.Error, and an empty one
+			// would vanish (the failure would be reported as success).
+			if errors == nil {
+				errors = &multierror.Error{}
+			}
+			errors.Errors = append(errors.Errors, err)
 		}
 		return true
 	})
